@@ -17,23 +17,23 @@ PROOF_TIMEOUT = {"quick": 1500, "thorough": 3000}
 EXHAUSTIVE = False
 MANIFEST = {
     "category": "proof",
-    "text": ("T5/T1: the regenerated model of Interpolation (set/_order_points/_newton_diff/__call__/derivative/root/minmax) "
-             "is evaluated symbolically in the real-number instance (tables of 2-5 symbolic points: divided differences, "
-             "passes through every point, equals the Lagrange polynomial and its derivative, order/input-form independence, "
-             "ValueError outside the table and on duplicates); the root loop carries a bracket invariant proved by induction "
-             "on the generated loop's fuel for ANY table (whenever a float is returned it lies in the clamped [xl,xh] and the "
-             "interpolant is <= tol there); binary64 kernel evaluation of root/minmax on an explicit grid; hand-written Newton "
-             "spec proved to interpolate for any n; bit-exact correspondence and a Fraction-exact search oracle incl. the four "
-             "Coordinates clients."),
-    "technique": "pyrun symbolic evaluation + field/lra in the ideal instance; fuel induction over the generated while loop; "
-                 "vm_compute reflection over a finite grid in binary64; generated model + bit-exact differential correspondence; "
-                 "exact rational reference in the search",
+    "text": ("T5/T1: root(): the while loop of the regenerated model (extracted from the generated text) keeps the bracket "
+             "invariant - proved by induction on the loop fuel in the real-number instance for ANY table object (__call__/derivative "
+             "as black boxes): whenever a float is returned it lies in the ordered, clamped [xl, xh] and the interpolant is <= tol "
+             "there (entry paths in-table / reversed / out-of-table / default); __call__/derivative of a symbolic three-point table "
+             "evaluated by pyrun: passes through the points, equals the Lagrange parabola and its derivative, ValueError outside; "
+             "binary64 kernel evaluation of root/minmax on an explicit grid (24 tables x all limit pairs) against an independent "
+             "Lagrange reference; bit-exact correspondence incl. the four Coordinates helpers; Fraction-exact search oracle."),
+    "technique": "fuel induction over the generated while loop + pyrun symbolic evaluation + field/lra/Coquelicot in the ideal "
+                 "instance; vm_compute reflection over a finite grid in binary64; generated model + bit-exact differential "
+                 "correspondence; exact rational reference in the search",
     "design_ref": "8/C12",
 }
-EXPLANATION = ("The generated model of Interpolation is evaluated by pyrun on symbolic tables (ideal reals) and shown equal to "
-               "divided differences / the Lagrange polynomial / its derivative; root(): a bracket invariant is proved by induction "
-               "over the fuel of the generated while loop for an arbitrary table; root/minmax evaluated by the kernel on an explicit "
-               "binary64 grid; convergence within max_iter is only searched.")
+EXPLANATION = ("root(): bracket invariant of the generated loop proved by induction on its fuel for an arbitrary table (ideal reals); "
+               "__call__/derivative evaluated symbolically on a three-point table and shown equal to the Lagrange parabola and its "
+               "derivative; root/minmax evaluated by the Coq kernel on an explicit binary64 grid; construction (divided differences, "
+               "ordering, input forms), duplicates, convergence within max_iter and the Coordinates helpers are covered by bit-exact "
+               "correspondence and the exact-rational search only.")
 CLAUSES = {
     "passes through every tabulated point": "proved [ideal, three-point table with symbolic abscissae/ordinates at least tol apart: C12_through_points]; n = 2..9 searched (exact equality) and bit-exact correspondence",
     "reproduces polynomials of degree < n (relative 1e-9)": "proved [ideal, n = 3: __call__ = Horner form of the stored table (C12_newton_form), which for divided differences is the Lagrange parabola (C12_polynomial, field)]; that set()/_newton_diff store the divided differences is NOT proved symbolically (pyrun on the doubly recursive _newton_diff does not terminate in reasonable time) - covered by correspondence + search against exact Fraction Lagrange, n = 2..9",
